@@ -13,7 +13,16 @@ def _abs(doc):
     return tokabs.abstract(toks)
 
 
+def _nest(prefixes):
+    first, cont = "", ""
+    for p in prefixes:
+        first += p
+        cont += p if p == "> " else " " * len(p)
+    return first, cont
+
+
 def spaces(ctx):
+    import itertools
     s1 = list(gen.uniq(list(gen.POOL) + list(gen.d_line(gen.V_ALL, 2))))
     s2 = list(gen.d_line(gen.V_CONT + gen.V_INLINE[:6], 3))
     s3 = list(gen.d_char(gen.A_CHAR + ["\t", "["], 4))
@@ -26,15 +35,28 @@ def spaces(ctx):
     s7 = list(gen.d_line(lrdl, 4, final_newline=(True,)))
     ei = ["> - a", "> -", "> 1. a", "> 2.", "> 3. c", "- a", "-", "  -", "> > -", "- > -", "1.", "> -  ", "a", ""]
     s8 = list(gen.d_line(ei, 3))
+    # a link reference definition that spans lines and is abandoned, inside container contexts with history (a nested
+    # container already closed, a sibling list, a quote inside an item): the rewind restores the stack and the token list
+    s9 = []
+    for prelude, pre in (("", ""), ("> a\n>\n", "> "), ("> > inner\n>\n> outer\n>\n", "> "), ("- a\n\n", "  "), ("- a\n  - b\n\n", "  "), ("> - a\n>\n", "> "), ("- > q\n\n", "  "), ("1. a\n\n   > q\n\n", "   ")):
+        for lrd in (["[foo]:", "/url 'abc", "def"], ["[foo]:", "/url", "'abc"], ["[foo]: /url 'abc", "def"], ["[foo", "bar]: /url 'abc", "def"], ["[foo]:", "", "x"], ["[foo]: /url \"t", "u", "v\" w"]):
+            for end in ("\nmore\n", "more\n", ""):
+                s9.append(prelude + "".join(pre + l + "\n" for l in lrd) + end)
+    s9 = list(gen.uniq(s9))
+    # leaves below up to four nested containers, opened on one line and continued on the next
+    s10 = []
+    for depth in (1, 2, 3, 4):
+        for ps in itertools.product(("> ", "- ", "1. "), repeat=depth):
+            first, cont = _nest(ps)
+            for leaf in (("```sh", "$ ls"), ("a", "b *e*"), ("# h", "t `c`"), ("    code", "    more"), ("*e* [l](/u)", "x ![i](/v)")):
+                s10.append(first + leaf[0] + "\n" + cont + leaf[1] + "\n")
+    s10 = list(gen.uniq(s10))
     if ctx.tier == "quick":
         return {"pool+D_line(V_ALL,2)": gen.sample(s1, 2500, ctx.seed), "D_line(cont+inline,3)": gen.sample(s2, 2500, ctx.seed + 1), "D_char(12,4)": gen.sample(s3, 1500, ctx.seed + 2),
                 "trigger-lines": gen.sample(s4, 1500, ctx.seed + 3), "emphasis-runs(7)": gen.sample(s5, 12000, ctx.seed + 4), "repository-corpus": gen.sample(s6, 1500, ctx.seed + 5),
-                "lrd-in-lists(4)": gen.sample(s7, 2000, ctx.seed + 6), "empty-items(3)": gen.sample(s8, 1500, ctx.seed + 7)}
-    return {"pool+D_line(V_ALL,2)": s1, "D_line(cont+inline,3)": s2, "D_char(12,4)": s3, "trigger-lines": s4, "emphasis-runs(7)": s5, "repository-corpus": s6, "lrd-in-lists(4)": s7, "empty-items(3)": s8}
-    if ctx.tier == "quick":
-        return {"pool+D_line(V_ALL,2)": gen.sample(s1, 2500, ctx.seed), "D_line(cont+inline,3)": gen.sample(s2, 2500, ctx.seed + 1), "D_char(12,4)": gen.sample(s3, 1500, ctx.seed + 2),
-                "trigger-lines": gen.sample(s4, 1500, ctx.seed + 3), "emphasis-runs(7)": gen.sample(s5, 12000, ctx.seed + 4), "repository-corpus": gen.sample(s6, 1500, ctx.seed + 5)}
-    return {"pool+D_line(V_ALL,2)": s1, "D_line(cont+inline,3)": s2, "D_char(12,4)": s3, "trigger-lines": s4, "emphasis-runs(7)": s5, "repository-corpus": s6}
+                "lrd-in-lists(4)": gen.sample(s7, 2000, ctx.seed + 6), "empty-items(3)": gen.sample(s8, 1500, ctx.seed + 7), "lrd-abandoned-in-containers": s9, "nested-containers(4)": s10}
+    return {"pool+D_line(V_ALL,2)": s1, "D_line(cont+inline,3)": s2, "D_char(12,4)": s3, "trigger-lines": s4, "emphasis-runs(7)": s5, "repository-corpus": s6, "lrd-in-lists(4)": s7, "empty-items(3)": s8,
+            "lrd-abandoned-in-containers": s9, "nested-containers(4)": s10}
 
 
 def run(ctx):
